@@ -56,7 +56,7 @@ class SimFS:
         self.files: dict[str, bytes] = {}
         self.chunk = 0
         self.fault = None
-        self.stats = {"is_file": 0, "stat": 0, "opens": 0, "raw_reads": 0, "short_reads": 0, "eio_fired": 0, "vanish_fired": 0}
+        self.stats = {"is_file": 0, "stat": 0, "opens": 0, "raw_reads": 0, "short_reads": 0, "eio_fired": 0, "vanish_fired": 0, "interrupt_fired": 0}
         self._installed = False
         self._answered_true: set = set()
 
